@@ -167,7 +167,8 @@ def describe_script(p):
     return (f"k={c['k']} T={c['solveT']} skip={c['skipT']} out={c['out']} foreign={'+'.join(c.get('foreign', [])) or '-'}"
             f" thermal_dts={p.get('tdts', [])} dts={p.get('simdts', [])} faults=[{fl}] probes={p.get('probes', 0)}"
             f" screening={p.get('screening', False)}" + (f" prior-run-same-path={p['prior']}" if p.get('prior') else "")
-            + (f" output_file={p['outname']}" if p.get('outname', 'out.h5') != 'out.h5' else ""))
+            + (f" output_file={p['outname']}" if p.get('outname', 'out.h5') != 'out.h5' else "")
+            + (" warnings-as-errors" if p.get("warn_error") else ""))
 
 
 def fault_class(p):
